@@ -81,7 +81,9 @@ def finish(prop, a, results, units, world, t0, seed, run_harness):
               "replay_cmd": "./check %s --replay %s" % (prop, os.path.relpath(rpath, VERIF))}
         json.dump(rp, open(rpath, "w"), indent=1, default=repr)
         verdict = {"confirmed": False}
-        if rp["args"] is not None or o.get("kind") not in (None, "rule"):
+        if o.get("confirmed_natively"):
+            verdict = {"confirmed": True, "note": "found by running the real code (bounded check)"}
+        elif rp["args"] is not None or o.get("kind") not in (None, "rule"):
             try:
                 verdict = run_harness(rpath, world.repo)
             except Exception as e:
@@ -110,8 +112,9 @@ def finish(prop, a, results, units, world, t0, seed, run_harness):
         print(l)
     # obligations covered by an open known finding are reported separately: they are not claimed
     n_known = sum(1 for o in obligations if o.get("known_finding"))
-    n_ob = len(obligations) - n_known
-    n_dis = sum(1 for o in obligations if o["status"] == "discharged")
+    n_bounded = sum(1 for o in obligations if o.get("bounded"))       # bounded stand-ins are never counted as proved
+    n_ob = len(obligations) - n_known - n_bounded
+    n_dis = sum(1 for o in obligations if o["status"] == "discharged" and not o.get("bounded"))
     if n_ob == 0 and code == 0:
         print("CHECKER-ERROR: zero obligations generated for %s (vacuity alarm)" % prop)
         code = 3
